@@ -16,6 +16,7 @@ import ast
 import json
 import os
 import random
+import re
 import struct
 import subprocess
 from fractions import Fraction
@@ -26,7 +27,10 @@ from .common import Check, sx, forbidden_scan, PY, VERIF, REPO
 
 TRUSTED = [
     "Coq 8.16.1 kernel (coqc); QArith ring/field; vm_compute only in the Examples",
-    "Print Assumptions: all C06 theorems closed under the global context (no axioms; rationals, no classical reals)",
+    "Print Assumptions: the algebraic C06 theorems over Q are closed under the global context (no axioms); the three analysis-level theorems "
+    "(C06_real_derivative, C06_evalQ_is_real_evaluation, C06_oracle_is_real_derivative; Coquelicot 3.x over Coq's Reals) depend on exactly "
+    "ClassicalDedekindReals.sig_not_dec, ClassicalDedekindReals.sig_forall_dec, FunctionalExtensionality.functional_extensionality_dep, Classical_Prop.classic",
+    "Coquelicot (is_derive and its derivative rules) and the Coq standard library of real numbers",
     "translator harness/c06.py:generate (Python ast): default eps, the perturb/call/difference/restore sequence of numeric_grad and numeric_jacobian, "
     "the parameter substitution of multi_grad_of_fn",
     "extraction: ExtrOcamlBasic only; ocaml/driver.ml; Python fractions.Fraction -> float (correctly rounded) for the oracle values",
@@ -42,6 +46,13 @@ ASSUME = [
 ]
 
 EPS = 1e-6
+
+# the analysis-level theorems (coq/C06/Analysis.v: C06_real_derivative, C06_evalQ_is_real_evaluation, C06_oracle_is_real_derivative)
+# are about Coq's classical real numbers; these standard-library axioms are what Print Assumptions shows for them.
+# The algebraic theorems over Q must stay closed under the global context (checked below).
+ALLOWED_AXIOMS = ("ClassicalDedekindReals.sig_not_dec", "ClassicalDedekindReals.sig_forall_dec",
+                  "FunctionalExtensionality.functional_extensionality_dep", "Classical_Prop.classic")
+ANALYSIS_THEOREMS = ("C06_real_derivative", "C06_evalQ_is_real_evaluation", "C06_oracle_is_real_derivative")
 
 
 # ---------------------------------------------------------------- translator
@@ -247,6 +258,8 @@ def subst(e, f):
         return ("neg", subst(e[1], f))
     if e[0] == "pow":
         return ("pow", subst(e[1], f), e[2])
+    if e[0] == "fn":
+        return ("fn", e[1], subst(e[2], f))
     return (e[0], subst(e[1], f), subst(e[2], f))
 
 
@@ -259,6 +272,8 @@ def to_sx(e):
         return ["neg", to_sx(e[1])]
     if e[0] == "pow":
         return ["pow", to_sx(e[1]), e[2]]
+    if e[0] == "fn":
+        return ["fn", e[1], to_sx(e[2])]
     return [e[0], to_sx(e[1]), to_sx(e[2])]       # incl. ("gpow", base, exponent): only for replay records, never sent to the model
 
 
@@ -271,6 +286,8 @@ def render(e, var):
         return "(-(" + render(e[1], var) + "))"
     if e[0] == "pow":
         return "((" + render(e[1], var) + ")^" + str(e[2]) + ")"
+    if e[0] == "fn":
+        return e[1] + "(" + render(e[2], var) + ")"
     op = {"add": "+", "sub": "-", "mul": "*", "div": "%", "gpow": "^"}[e[0]]
     return "((" + render(e[1], var) + ")" + op + "(" + render(e[2], var) + "))"
 
@@ -311,6 +328,23 @@ def dual_eval(e, pt, n, info):
         a = dual_eval(e[1], pt, n, info)
         k = e[2]
         return Dual(a.v ** k, [k * a.v ** (k - 1) * x for x in a.g], a.m ** k, [k * a.m ** (k - 1) * x for x in a.mg])
+    if t == "fn":
+        a = dual_eval(e[2], pt, n, info)
+        f = e[1]
+        if f in ("log", "sqrt"):
+            info["minbase"] = min(info["minbase"], a.v)
+            if a.v <= 0:
+                raise ValueError("argument not positive")
+        if f == "abs":
+            info["mind"] = min(info["mind"], abs(a.v))
+        v, d = {"exp": lambda x: (math.exp(x), math.exp(x)), "log": lambda x: (math.log(x), 1 / x),
+                "sin": lambda x: (math.sin(x), math.cos(x)), "cos": lambda x: (math.cos(x), -math.sin(x)),
+                "sqrt": lambda x: (math.sqrt(x), 0.5 / math.sqrt(x)), "abs": lambda x: (abs(x), 1.0 if x > 0 else -1.0),
+                "tanh": lambda x: (math.tanh(x), 1 - math.tanh(x) ** 2)}[f](a.v)
+        # magnitude: |f| with the argument's magnitude where f is monotone in |.| (exp), else |value| plus the Lipschitz part
+        m = math.exp(a.m) if f == "exp" else abs(v) + abs(d) * a.m
+        dm = math.exp(a.m) if f == "exp" else abs(d)
+        return Dual(v, [d * x for x in a.g], m, [dm * x for x in a.mg])
     a = dual_eval(e[1], pt, n, info)
     b = dual_eval(e[2], pt, n, info)
     if t in ("add", "sub"):
@@ -346,6 +380,32 @@ def py_oracle(e, pt, n):
 
 def has_gpow(e):
     return e[0] == "gpow" or any(isinstance(x, tuple) and has_gpow(x) for x in e[1:])
+
+
+MATH_FNS = ["exp", "log", "sin", "cos", "sqrt", "abs", "tanh"]
+BKF = '.bkf(["' + '" "'.join(MATH_FNS) + '"])'
+
+
+def fn_trees():
+    """imported backend math functions (analysis-level theorem C06_real_derivative; float dual-number oracle here)"""
+    v0, v1, v2 = ("v", 0), ("v", 1), ("v", 2)
+    one, two, half = ("c", 1, 1), ("c", 2, 1), ("c", 1, 2)
+    args = [v0, ("mul", v0, v1), ("add", v0, v2), ("div", v1, v2), ("mul", two, v1), ("sub", v0, v1)]
+    out = [("fn", f, a) for f in MATH_FNS for a in args]
+    F = lambda f, a: ("fn", f, a)
+    out += [F("exp", F("sin", v0)), F("log", ("add", one, F("exp", v1))), ("mul", F("sqrt", v0), F("log", v1)),
+            ("gpow", F("tanh", v0), v1), ("div", F("sin", v0), F("cos", v1)), F("exp", ("neg", ("pow", v0, 2))),
+            ("mul", v2, F("abs", ("sub", v0, v1))), F("sqrt", ("add", ("pow", v0, 2), ("pow", v1, 2))),
+            ("sub", F("tanh", ("mul", v0, v1)), F("cos", ("div", v2, two))), ("pow", F("log", ("mul", v0, v2)), 3),
+            F("sin", F("sqrt", ("mul", v1, v2))), ("div", one, ("add", one, F("exp", ("neg", v0))))]
+    return out
+
+
+def elem_fn_trees():
+    x = ("v", 0)
+    F = lambda f, a: ("fn", f, a)
+    return [F("exp", x), ("mul", F("sqrt", x), F("log", x)), F("tanh", ("mul", x, ("c", 1, 2))), ("pow", F("sin", x), 2),
+            F("abs", ("sub", x, ("c", 1, 1))), ("div", F("cos", x), x)]
 
 
 def gpow_trees():
@@ -500,6 +560,13 @@ print("RESULTS " + json.dumps(out))
 '''
 
 
+def fn_def(defs):
+    for d in defs:
+        if d.split("::")[0] in ("f", "g", "l", "gm", "loss"):
+            return d
+    return ""
+
+
 def have_torch():
     p = subprocess.run([PY, "-W", "ignore", "-c", "import torch"], stdout=subprocess.PIPE, stderr=subprocess.PIPE)
     return p.returncode == 0
@@ -557,12 +624,18 @@ def run(tier, replay=None):
     chk.generate(generate())
     chk.build_model()
     hits = forbidden_scan("C06")
-    proof = chk.build_proofs()
+    proof = chk.build_proofs(allowed_axioms=ALLOWED_AXIOMS)
     if hits:
         proof["ok"] = False
         proof["error"] = "forbidden declarations: %r" % hits
         proof["broken"] = hits[0]
 
+    if proof["ok"]:
+        leaked = [t for t, ax in proof["assumptions"].items() if ax and t not in ANALYSIS_THEOREMS]
+        if leaked:
+            proof["ok"] = False
+            proof["error"] = "axioms in a theorem that is claimed axiom-free: %r" % {t: proof["assumptions"][t] for t in leaked}
+            proof["broken"] = leaked[0]
     trees3, trees1 = build_universe(tier, rng)
     # ---- build cases: (id, exprs, n, point, kind)
     raw = []
@@ -579,6 +652,22 @@ def run(tier, replay=None):
     raw.append({"kind": "scalar", "exprs": [("sub", ("neg", ("c", 1, 1)), ("pow", ("v", 0), 2))], "n": 1, "fixed_point": [Fraction(-2)]})
     prods = [("mul", ("v", 0), ("mul", ("v", 1), ("v", 2)))]
     raw.append({"kind": "prod", "exprs": prods, "n": 3})
+
+    # matrix parameters (2x2): indexing trees over the four entries, reductions over all entries, elementwise vector functions
+    atoms4 = [("v", i) for i in range(4)] + [("c", a, b) for a, b in CONSTS]
+    n_mat = 40 if tier == "quick" else 600
+    for _ in range(n_mat):
+        t = rand_tree(rng, rng.randint(2, 6), atoms4)
+        if vars_of(t):
+            raw.append({"kind": "mat", "exprs": [t], "n": 4})
+            raw.append({"kind": "multi3", "exprs": [t], "n": 4})
+    for i, t in enumerate(trees1[:: (12 if tier == "quick" else 3)]):
+        raw.append({"kind": "matred", "exprs": [dsum([subst(t, lambda _i, j=j: ("v", j)) for j in range(4)])], "n": 4, "elem": t})
+        raw.append({"kind": "matjac", "exprs": [subst(t, lambda _i, j=j: ("v", j)) for j in range(4)], "n": 4, "elem": t})
+    for i in range(0, n_mat - 1, 4):
+        a, b = rand_tree(rng, rng.randint(2, 5), atoms4), rand_tree(rng, rng.randint(2, 5), atoms4)
+        if vars_of(a) and vars_of(b):
+            raw.append({"kind": "multi3jac", "exprs": [a, b], "n": 4})
 
     # vector functions that only MOVE data (identity, reverse, take, drop, index lists, rotations built from slices): their
     # result may share storage with the argument; the exact Jacobian is a selection matrix (oracle: the extracted model)
@@ -601,6 +690,16 @@ def run(tier, replay=None):
     raw.append({"kind": "jacsel", "exprs": [("gpow", V[i], V[0]) for i in range(3)], "n": 3, "g": "{x^(x@0)}", "py": True})
     raw.append({"kind": "jacsel", "exprs": [("gpow", V[1], V[i]) for i in range(3)], "n": 3, "g": "{(x@1)^x}", "py": True})
     raw.append({"kind": "jacsel", "exprs": [("gpow", V[i], V[2 - i]) for i in range(3)], "n": 3, "g": "{x^|x}", "py": True})
+    fts = fn_trees()
+    for t in fts:
+        raw.append({"kind": "vec3", "exprs": [t], "n": 3, "py": True})
+    for i in range(0, len(fts) - 1, 5):
+        raw.append({"kind": "jac", "exprs": [fts[i], fts[i + 7 if i + 7 < len(fts) else 0]], "n": 3, "py": True})
+    for t in elem_fn_trees():
+        raw.append({"kind": "scalar", "exprs": [t], "n": 1, "py": True})
+        raw.append({"kind": "reduce", "exprs": [dsum([subst(t, lambda _i, j=j: ("v", j)) for j in range(3)])], "n": 3, "elem": t, "py": True})
+    raw.append({"kind": "jacsel", "exprs": [("fn", "exp", V[i]) for i in range(3)] + [("fn", "sin", V[i]) for i in range(3)], "n": 3,
+                "g": "{exp(x),sin(x)}", "py": True})
     # a learnable exponent: loss = +/(w*X)^p over the constant X = [1 2 3], differentiated in [w p]
     raw.append({"kind": "lexp", "exprs": [dsum([("gpow", ("mul", ("v", 0), ("c", k, 1)), ("v", 1)) for k in (1, 2, 3)])], "n": 2, "py": True})
 
@@ -661,6 +760,8 @@ def run(tier, replay=None):
         pt = cs["point"]
         pf = [float(p) for p in pt]
         defs, evals = [], []
+        if c.get("py"):
+            defs.append(BKF)
         if c["kind"] in ("vec3", "reduce", "prod"):
             e = c["exprs"][0]
             defs.append("p::" + vec_lit(pt))
@@ -697,14 +798,52 @@ def run(tier, replay=None):
             defs.append("gm::{(" + render(e1, vmulti) + "),(" + render(e2, vmulti) + ")}")
             evals.append({"label": "multi-jac", "expr": "[w b]∂gm",
                           "bitexact": {"mode": "vector", "nested": True, "params": [["w", pf[:2]], ["b", pf[2]]], "call": "gm()"}})
+        elif c["kind"] in ("mat", "matred", "matjac"):
+            mlit = "[" + vec_lit(pt[:2]) + " " + vec_lit(pt[2:]) + "]"
+            mbase = [pf[:2], pf[2:]]
+            defs.append("m::" + mlit)
+            if c["kind"] == "mat":
+                defs.append("f::{" + render(c["exprs"][0], lambda k: "((x@%d)@%d)" % (k // 2, k % 2)) + "}")
+            elif c["kind"] == "matred":
+                defs.append("f::{+/+/" + render(c["elem"], lambda _i: "x") + "}")
+            if c["kind"] in ("mat", "matred"):
+                be = {"mode": "scalar", "params": [["q", mbase]], "call": "f(q)"}
+                evals.append({"label": ":>", "expr": "f:>m", "bitexact": be})
+                evals.append({"label": "nabla", "expr": "m∇f", "bitexact": be})
+                evals.append({"label": ":>", "expr": "f:>" + mlit, "bitexact": be})
+            else:
+                defs.append("g::{" + render(c["elem"], lambda _i: "x") + "}")
+                be = {"mode": "vector", "params": [["q", mbase]], "call": "g(q)"}
+                evals.append({"label": "jac", "expr": "m∂g", "bitexact": be})
+                evals.append({"label": "jac", "expr": ".jacobian(g;m)", "bitexact": be})
+        elif c["kind"] in ("multi3", "multi3jac"):
+            # three parameters of mixed shapes: a scalar, w a 2-vector, c a 1-element vector
+            v3 = lambda k: ["a", "(w@0)", "(w@1)", "(c@0)"][k]
+            defs += ["a::" + flit(pt[0]), "w::" + vec_lit(pt[1:3]), "c::" + vec_lit(pt[3:])]
+            params = [["a", pf[0]], ["w", pf[1:3]], ["c", pf[3:]]]
+            if c["kind"] == "multi3":
+                defs.append("l::{" + render(c["exprs"][0], v3) + "}")
+                evals.append({"label": "multi:>", "layout": [1, 2, 1], "expr": "l:>[a w c]",
+                              "bitexact": {"mode": "scalar", "nested": True, "params": params, "call": "l()"}})
+                evals.append({"label": "multi:>", "layout": [1, 1, 2], "expr": "l:>[c a w]",
+                              "perm": [3, 0, 1, 2],
+                              "bitexact": {"mode": "scalar", "nested": True, "params": [params[2], params[0], params[1]], "call": "l()"}})
+            else:
+                e1, e2 = c["exprs"]
+                defs.append("gm::{(" + render(e1, v3) + "),(" + render(e2, v3) + ")}")
+                evals.append({"label": "multi-jac", "layout": [1, 2, 1], "expr": "[a w c]∂gm",
+                              "bitexact": {"mode": "vector", "nested": True, "params": params, "call": "gm()"}})
         elif c["kind"] == "jacsel":
             defs.append("p::" + vec_lit(pt))
             defs.append("g::" + c["g"])
             defs.append("w::" + vec_lit(pt))
-            defs.append("gw::" + c["g"].replace("x", "w"))
+            defs.append("gw::" + re.sub(r"(?<![a-z])x(?![a-z])", "w", c["g"]))
             be = {"mode": "vector", "params": [["q", pf]], "call": "g(q)"}
             evals.append({"label": "jac", "expr": "p∂g", "bitexact": be})
-            evals.append({"label": "jac", "expr": ".jacobian(g;p)", "bitexact": be})
+            if "(" not in c["g"].replace("(x@", "").replace("(1_x)", "").replace("(-1)", ""):
+                # (a wrapped torch function called inside the frame of the dyadic system function .jacobian(x;y) is handed y as a
+                #  second argument - defect R14 of DESIGN 0, C09's subject - so g with imported functions goes through ∂ only)
+                evals.append({"label": "jac", "expr": ".jacobian(g;p)", "bitexact": be})
             evals.append({"label": "jac", "expr": vec_lit(pt) + "∂g", "bitexact": be})
             evals.append({"label": "multi-jac", "layout": [3], "expr": "[w]∂gw",
                           "bitexact": {"mode": "vector", "nested": True, "params": [["w", pf]], "call": "gw()"}})
@@ -744,13 +883,15 @@ def run(tier, replay=None):
             sizes = [n]
         else:
             raise KeyError(label)
+        perm = ev.get("perm", list(range(n)))
         out, a = [], 0
         for sz in sizes:
+            idx = [perm[j] for j in range(a, a + sz)]
             if label in ("jac", "multi-jac"):
-                out.append([(q(o[4][j]), q(o[5][j]), q(o[6])) for o in ors for j in range(a, a + sz)])
+                out.append([(q(o[4][j]), q(o[5][j]), q(o[6])) for o in ors for j in idx])
             else:
                 o = ors[0]
-                out.append([(q(o[4][j]), q(o[5][j]), q(o[6])) for j in range(a, a + sz)])
+                out.append([(q(o[4][j]), q(o[5][j]), q(o[6])) for j in idx])
             a += sz
         return out
 
@@ -767,7 +908,7 @@ def run(tier, replay=None):
                 label = ev["label"]
                 chk.count("evaluations")
                 chk.count("%s_%s" % (b, label))
-                key = (b, label, ev["expr"] if c["kind"] in ("jacsel", "jacsel2", "lexp") else "", json.dumps(c["exprs"]))
+                key = (b, label, ev["expr"] if c["kind"] in ("jacsel", "jacsel2", "lexp", "mat", "matred", "matjac", "multi3") else "", json.dumps(c["exprs"]))
                 if key not in seen:
                     seen.add(key)
                     chk.count("distinct_nontrivial")
@@ -788,7 +929,8 @@ def run(tier, replay=None):
                     for gi, (g, x) in enumerate(zip(got, exp)):
                         for ci2, (gb, (ex, magd, magf)) in enumerate(zip(g, x)):
                             gv = bits_to_float(gb)
-                            tol = (1e-5 * float(magd) + 1e-8 * float(magf) + 1e-12) if numeric else (1e-4 * float(magd) + 1e-5 * float(magf) + 1e-7)
+                            tol = (1e-5 * float(magd) + 1e-8 * float(magf) + (1e-9 if c.get("py") else 1e-12)) if numeric \
+                                else (1e-4 * float(magd) + 1e-5 * float(magf) + 1e-7)
                             if not (abs(gv - float(ex)) <= tol):
                                 bad = {"what": "value differs from the exact derivative", "parameter": gi, "component": ci2, "got": gv,
                                        "exact": str(ex), "exact_float": float(ex), "tolerance": tol, "kind": item.get("kind"),
@@ -814,7 +956,7 @@ def run(tier, replay=None):
                                                    got=got, formula=fm), "formula"))
                         else:
                             chk.count("bit_exact_components", sum(len(g) for g in got))
-                chk.sample({"backend": b, "form": label, "f": cs["defs"][1] if len(cs["defs"]) > 1 else "", "point": [str(p) for p in cs["point"]],
+                chk.sample({"backend": b, "form": label, "f": fn_def(cs["defs"]), "point": [str(p) for p in cs["point"]],
                             "got": [bits_to_float(v) for v in got[0][:3]], "exact": [str(x[0]) for x in exp[0][:3]]}, limit=8)
 
     chk.counters["property_failures"] = len(prop_fail)
@@ -836,7 +978,7 @@ def run(tier, replay=None):
              "1-variable trees as scalar functions and as bodies of +/ and each; pairs of trees as vector functions; x points drawn from the grid "
              "{-2,-1.5,-1,-0.5,0.5,1,1.5,2,3}^n kept when the model says every denominator is >= 1/4 in absolute value; forms f:>p, p∇f, f:>s, l:>[w b], p∂g, [w b]∂g "
              "on every available backend. distinct = distinct (backend, form, tree)",
-        trusted_base=TRUSTED, assumptions=ASSUME)
+        trusted_base=TRUSTED, assumptions=ASSUME, allowed_axioms=ALLOWED_AXIOMS)
 
 
 # known-finding classes (see findings_parts/C06.json); each is a predicate on a failing record
@@ -868,11 +1010,11 @@ def classify_and_report(chk, prop_fail, corr_fail, proof):
     for fc, recs in by_class.items():
         chk.counters["known_class_" + fc] = len(recs)
         chk.finding(fc, "%s of %s on the torch backend: %s, got %r for %s (%d cases of this run)"
-                    % (recs[0].get("expr"), recs[0]["defs"][1], recs[0].get("what"), recs[0].get("got"), recs[0].get("exact"), len(recs)), recs[0])
+                    % (recs[0].get("expr"), fn_def(recs[0]["defs"]), recs[0].get("what"), recs[0].get("got"), recs[0].get("exact"), len(recs)), recs[0])
     if unknown:
         rec = unknown[0]
         chk.violation("gradient differs from the mathematical derivative: %s of %s at %s on %s: %s"
-                      % (rec.get("expr"), rec.get("defs", ["", ""])[1] if len(rec.get("defs", [])) > 1 else "", rec.get("point"), rec.get("backend"), rec.get("what")),
+                      % (rec.get("expr"), fn_def(rec.get("defs", [])), rec.get("point"), rec.get("backend"), rec.get("what")),
                       dict(rec, other_failures=len(unknown) - 1))
     if not chk.violations:
         if corr_fail:
